@@ -15,14 +15,18 @@ cm = VerusUnit("c07_costmodel", "c07_costmodel", rlimit=30)
 sp = VerusUnit("c02_speed", "c02_speed", rlimit=30)
 cw = KaniUnit("c02_cost_service_wit", "routee-compass", modules=[dict(file="routee-compass/src/app/compass/config/cost_model/cost_model_service.rs", src="c02_cost_service_wit.rs")], harnesses=[])
 cw.native_witnesses = ["c02_wit_query_rates_and_weights_are_the_ones_in_force"]
-UNITS = [al, cm, sp, rc, cw]
+cb = VerusUnit("c02_cost_build", "c02_cost_build", rlimit=30, paired_kani=(cw, []))
+UNITS = [al, cm, sp, rc, cb, cw]
 EXPLANATION = ("NOT optimality. Decided: the relaxation mechanism of run_a_star as contracts on the verbatim driver (Verus): a label is replaced only by a strictly smaller cost-so-far equal to the near vertex' "
                "label plus the edge's total cost; the vertex is re-queued with f = g + weighted estimate and its queue priority is never worse than that f (invariant Q: catches push_increase/push_decrease "
                "mix-ups and flipped comparisons); advance_search hands out a queued vertex of least f-score (assumed contract of the priority_queue crate + ReverseCost's order reversal, proved by Kani); "
                "the estimate is costed by cost_estimate (>= 0) on the traversal model's estimated state (SearchInstance::estimate_traversal_cost, Verus); "
                "time component of the heuristic (unit c02_speed, Verus on the verbatim speed-table model): get_max_speed returns a positive upper bound of the table that occurs in it; the engine built by "
                "SpeedTraversalEngine::new carries that bound (engine_wf); traverse_edge adds length / the edge's OWN table speed, estimate_traversal adds straight-line length / max_speed; lemmas: for equal length the "
-               "estimate is never above the time at any table speed, and along any route the summed edge times are >= the estimate for the summed length (induction)")
+               "estimate is never above the time at any table speed, and along any route the summed edge times are >= the estimate for the summed length (induction); "
+               "'the weights and rates in force for that query, whether they come from the configuration or from the query itself' (unit c02_cost_build, Verus on the verbatim CostModelService::build and CostModel::new, any query, "
+               "configuration and state model): the cost model built for a query costs the feature at EVERY state-model slot with the weight, vehicle rate and network rate of THAT feature's name (absent: the default), in slot order, "
+               "the weights / vehicle rates / aggregation being the query's own where it carries them and the configured ones otherwise; an unreadable cost section is an error of that query, never a silent fallback; a weight for an unknown feature is refused unless told to ignore it")
 NOT_DECIDED = ("least total cost itself (global Dijkstra/A* argument); admissibility of the great-circle heuristic (transcendental functions, premise about the network); "
-               "SearchAlgorithm dispatch (Dijkstra = weight factor 0, query override) and CostModelService::build (serde_json); that the great-circle length is a lower bound of the network length (data premise)")
-ASSUMPTIONS = ["priority_queue crate: push/push_increase/pop semantics as stated in the shim", "A-REAL (costs as extended reals)"]
+               "SearchAlgorithm dispatch beyond unit c01_dispatch (Dijkstra = weight factor 0, query override); parsing of the query's cost section (serde_json: a deterministic read per key and type); that the great-circle length is a lower bound of the network length (data premise)")
+ASSUMPTIONS = ["HashMap<String, V> as an abstract map from names to values; StateModel::indexed_iter yields (slot, name) in slot order (C11); Clone returns an equal value", "priority_queue crate: push/push_increase/pop semantics as stated in the shim", "A-REAL (costs as extended reals)"]
